@@ -1,6 +1,7 @@
 """General utilities usable by any other GTIRB submoudle."""
 
 import itertools
+import operator
 import typing
 
 import intervaltree
@@ -82,30 +83,44 @@ class ListWrapper(typing.MutableSequence[T]):
         i: typing.Union[typing_extensions.SupportsIndex, slice],
         v: typing.Union[T, typing.Iterable[T]],
     ) -> None:
-        # Anything invalid (an index out of range, an extended slice of the
-        # wrong size) is rejected before the first hook runs.
+        # The assignment is made on a copy first: anything invalid (an index
+        # out of range, an extended slice of the wrong size) is rejected
+        # before the first hook runs.
+        old = self._data
+        trial = list(old)
         if isinstance(i, slice):
-            assert isinstance(v, typing.Iterable)
-            values = list(v)
-            trial = list(self._data)
+            values = list(typing.cast(typing.Iterable[T], v))
             trial[i] = values
-            removed = self._data[i]
-        elif -len(self._data) <= i.__index__() < len(self._data):
+            start, _, step = i.indices(len(old))
+            slots = set(range(start, start + step * len(values), step))
+        else:
+            index = operator.index(i)
             values = [typing.cast(T, v)]
-            removed = [self._data[i]]
-        else:
-            raise IndexError("list assignment index out of range")
-        for value in removed:
-            self._remove(value)
-        # The new items are in place before their add hooks run: the hook of a
-        # node that is still elsewhere in this list moves it by removing its
-        # other occurrence, which must not invalidate a position kept here.
-        if isinstance(i, slice):
-            self._data[i] = values
-        else:
-            self._data[i] = values[0]
-        for value in values:
-            self._add(value)
+            trial[index] = values[0]
+            slots = {index % len(old)}
+        # An item assigned from elsewhere in this list moves: it stays in the
+        # slot it was assigned to and its old occurrence goes away. (One given
+        # twice keeps the first of its slots.)
+        assigned = {id(value) for value in values}
+        placed: typing.Set[int] = set()
+        final: typing.List[T] = []
+        for position, item in enumerate(trial):
+            if position in slots:
+                if id(item) in placed:
+                    continue
+                placed.add(id(item))
+            elif id(item) in assigned:
+                continue
+            final.append(item)
+        staying = {id(item) for item in final}
+        before = {id(item) for item in old}
+        for item in old:
+            if id(item) not in staying:
+                self._remove(item)
+        self._data[:] = final
+        for item in final:
+            if id(item) not in before:
+                self._add(item)
 
     @typing.overload
     def __delitem__(self, i: int) -> None:
